@@ -102,6 +102,15 @@ def run(P: Program, R: Report, tier: str) -> None:
             ok = all(norm(g.test) in ("self.pixels is not None", "self.pixels") for g in guards) and len(guards) <= 1
             R.check(ok, "R07.3", fn, c, f"{cls.name}: the array is written whenever pixels are present",
                     f"extra condition on the paint: {[norm(g.test) for g in guards]}", via="syntax")
+    # converse: a primitive that adds / removes a node and carries pixels paints / clears them
+    for c in A.primitives:
+        ap = c.methods.get("_apply")
+        if ap is None:
+            continue
+        body = norm(ap.node)
+        if ("add_node(" in body or "remove_node(" in body) and "self.pixels" in norm(c.node):
+            R.check("set_pixels(" in body, "R07.3", ap, ap.node, f"{c.name}._apply writes the node's pixels together with the node-set change",
+                    f"{c.name} changes the node set but leaves the array alone: a label without a node (or a node without label) remains", via="syntax")
     # capture: the destructive primitive remembers the pixels it clears
     for c in A.primitives:
         ap = c.methods.get("_apply")
